@@ -43,4 +43,9 @@ def jobs():
         js.append(Job("S4-success-drain@held%d" % held, "C07/c07.c", "c08_s2_drain", UNITS, extra_src=EXTRA, defines=["HELD=%d" % held, "DPROTO=%d" % DTLS] + CUT_CLIENT,
                       remove_bodies=RB_CLIENT, unwind=18, flags=FS, group="S4-success-drain", timeout=1500, est_gb=3,
                       desc="handshake success: %d held messages delivered in order, once" % held, bounds={"held": held}))
+    for side in ("server", "client"):
+        js.append(Job("L1-psk-%s-callback" % side, "C19/c19g.c", "c19_l1_psk_%s" % side, UNITS + ["coap_gnutls.c"], extra_src=EXTRA,
+                      defines=CUT_CLIENT, remove_bodies=RB_CLIENT, unwind=18, unwindset={"strlen.0": 4}, flags=FS, group="L1-psk-callback", timeout=900, est_gb=3,
+                      desc="psk_%s_callback (coap_gnutls.c): refused identity/hint => -1 and no key material; accepted => exactly the chosen key" % side,
+                      bounds={"key_length": 3, "identity": "1 symbolic byte"}))
     return js
